@@ -19,6 +19,10 @@ by the margin thr = (best - worst) / 8 >= max|score| / 256 -- otherwise the camp
 camp_wiring additionally checks the shape of the simulation on the data: traces = gain * leak + noise in [-a, a].
 The harness evaluates the same verdict independently (integer sums, fractions) and Coq cross-checks it.
 
+Classes closed in later rounds: the words argument in every form and order; custom tags and extra metadata fields; frames of
+length 1 and 2 (list / ndarray / slice) x polarity (gain < 0) x every discriminant that ranks by the leak; precision x offset
+(baseline 30000, float64) for every class, the template profile being recomputed by the harness from the building traces.
+
 Second kind, campaign HISTORIES: one selection function object and one model object re-used for 2-3 campaigns under different
 keys / plaintext sets / batch sizes, compute_expected_key asked before the run, after it and once more, attack objects run()
 twice on containers of the same key; every campaign of the history is certified as above (state kept between campaigns).
@@ -51,8 +55,9 @@ TRUSTED_BASE = [
     'the specs of the colleagues that the certificate evaluates: Model/Cpa.v pearson_fast / dpa_spec (C03), Model/Partitioned.v '
     'groups / ss_between / var_of_class_means / snr_signal (C04), Model/Mia.v hist_bsum / comp (C13), Model/Template.v spec_score (C14), '
     'Model/Models.v disc_lane (C15)',
-    'oracles inside the certificate: math.log for ln 1..N (MIA), the attack object\'s own templates and pooled_covariance_inv '
-    '(template attack; C14 is about them)',
+    'oracles inside the certificate: math.log for ln 1..N (MIA); numpy.linalg.pinv applied by the HARNESS to the pooled covariance it '
+    'computes itself from the building traces (class means and pooled covariance by the definitions of Model/Template.v, exact integer '
+    'sums; independent of the attack object), rounded to dyadics',
     'memoisation of scared.distinguishers.partitioned._define_lut_func per class set in the harness (one numba compilation per '
     'distinct partitions instead of one per object)',
 ]
@@ -67,7 +72,11 @@ ASSUMPTIONS = [
     'design (AddRoundKey targets with partition statistics, DPA, or maxabs) and are not generated: AddRoundKey targets are attacked '
     'with CPA + HammingWeight + nanmax only',
     'static TemplateAttack has no key guesses and no expected-key function; the template class is covered by TemplateDPAAttack',
-    'integer traces and hypothesis values: every float sum of the code is exact; "agree" means within thr / 4 >= max|score| / 1024',
+    'integer traces and hypothesis values: every float sum of the code is exact in the precision of the campaign; traces around a '
+    'baseline of 30000 (raw ADC codes) are generated with precision=float64 only (float32 accumulators are not exact there, whatever '
+    'the class); "agree" means within thr / 4 >= max|score| / 1024',
+    'discriminants: for gain > 0 nanmax / maxabs (CPA, DPA), any of nanmax / maxabs / abssum / nansum for the non-negative statistics; '
+    'for gain < 0 (leak = - model) maxabs / opposite_min; sums for CPA only on one-sample frames (a sum over one sample is that sample)',
 ]
 
 HDR = 'From ScaredV Require Import Model.Attack.\nFrom ScaredV Require Model.Models Model.Partitioned.'
@@ -176,11 +185,11 @@ def simulate(case):
         ct = mod.encrypt(pt, key)
         st = real_state(case, pt, key)
         leak = [[f(st[t][w]) for t in range(n)] for w in case['words']]
-        a = case['amp']
-        traces = [[rng.randint(-a, a) for _ in range(case['S'])] for _ in range(n)]
+        a, off = case['amp'], case.get('offset', 0)
+        traces = [[off + rng.randint(-a, a) for _ in range(case['S'])] for _ in range(n)]
         for s in case.get('const', []):          # a constant sample inside the attacked frame (its statistic is undefined: NaN results)
             for t in range(n):
-                traces[t][s] = 0
+                traces[t][s] = off
         for wi, ss in enumerate(case['leaks']):
             for s in ss:
                 for t in range(n):
@@ -360,49 +369,103 @@ def separated(qs, i):
     return thr
 
 
-def _dyadic(m, bits):
-    """The matrix rounded to multiples of 2^-k, k such that its largest entry keeps [bits] significant bits (exact floats).  Coq's
-    rationals are binary trees: 53-bit mantissas make the Mahalanobis forms of one campaign cost 12 s, these 1 s; the rounding
-    (18 bits for the templates, 20 for the inverse covariance) moves a score by < 0.004 in the worst case (S^2 d^2 |P| 2^-20 / S,
-    |d| <= 18), below the tolerance thr / 4 >= 10 / 1024."""
+def _dyadic(m, bits, frac=None):
+    """The matrix rounded to multiples of 2^-k (exact floats): k = frac when given, else such that the largest entry keeps [bits]
+    significant bits.  Coq's rationals are binary trees: 53-bit mantissas make the Mahalanobis forms of one campaign cost 12 s,
+    these 1 s; the rounding (2^-12 absolute for the class means, 20 bits for the inverse covariance) moves a score by < 0.004 in
+    the worst case (S^2 d^2 |P| 2^-20 / S, |d| <= 18), below the tolerance thr / 4 >= 10 / 1024."""
     m = np.asarray(m, dtype='float64')
-    if not np.all(np.isfinite(m)):
-        raise ValueError('the built TemplateDPAAttack has non-finite entries in .templates / .pooled_covariance_inv '
-                         '(every declared class of the campaign has building traces or is simply absent)')
     top = float(np.max(np.abs(m))) if m.size else 0.0
-    if not math.isfinite(top) or top == 0.0:
+    if frac is None and (not math.isfinite(top) or top == 0.0):
         return [[float(v) for v in r] for r in m]
-    k = max(0, min(60, bits - (math.frexp(top)[1])))
+    k = frac if frac is not None else max(0, min(60, bits - (math.frexp(top)[1])))
     return [[float(round(float(v) * 2 ** k)) / 2 ** k for v in r] for r in m]
+
+
+def profile_of(btraces, classes, parts):
+    """Profile of the building set by the definitions (Model/Template.v spec_templates / spec_pooled): class means, pooled
+    covariance = mean over the DECLARED classes of the unbiased within-class covariance (0 for classes of fewer than two
+    traces), and its pseudo-inverse (numpy.linalg.pinv: oracle).  Exact integer sums, one float division each."""
+    S = len(btraces[0])
+    T = np.zeros((len(parts), S))
+    cov = [[Fraction(0)] * S for _ in range(S)]
+    for k, p in enumerate(parts):
+        rows = [r for r, c in zip(btraces, classes) if c == p]
+        n = len(rows)
+        if n == 0:
+            continue
+        sums = [sum(r[j] for r in rows) for j in range(S)]
+        T[k] = [float(Fraction(sums[j], n)) for j in range(S)]
+        if n > 1:
+            for i in range(S):
+                for j in range(S):
+                    sxy = sum(r[i] * r[j] for r in rows)
+                    cov[i][j] += Fraction(n * sxy - sums[i] * sums[j], n * (n - 1))
+    C = np.array([[float(v / len(parts)) for v in row] for row in cov])
+    return T, np.linalg.pinv(C)
 
 
 # ---------------------------------------------------------------------------------------------- generators
 def attacks_for(rng, case, tier):
-    """The attack objects of a campaign: every class that can separate the hypotheses of this target and model."""
+    """The attack objects of a campaign: every class that can separate the hypotheses of this target and model, each with a
+    discriminant that ranks by the leak for the polarity of the campaign (gain < 0: the leak is minus the model)."""
     m = case['model'][0]
-    if is_ark(case):
-        return [{'cls': 'cpa', 'disc': 'nanmax'}]
+    pos = case['gain'] > 0
+    one = frame_len(case) == 1                      # a sum over one sample is that sample
+    signed = (['maxabs', 'maxabs', 'nanmax'] + (['abssum', 'nansum'] if one else [])) if pos else \
+             (['maxabs', 'opposite_min'] + (['abssum'] if one else []))
+    if is_ark(case):                                # the complemented guess has r = -r: only the signed discriminants separate
+        return [{'cls': 'cpa', 'disc': rng.choice(['nanmax'] + (['nansum'] if one else [])) if pos else 'opposite_min'}]
     atts = []
     if m == 'monobit':
-        atts.append({'cls': 'dpa', 'disc': rng.choice(['maxabs', 'maxabs', 'nanmax'])})
-    atts.append({'cls': 'cpa', 'disc': rng.choice(['maxabs', 'maxabs', 'nanmax'])})
+        atts.append({'cls': 'dpa', 'disc': rng.choice(signed + (['abssum'] if pos else []))})
+    atts.append({'cls': 'cpa', 'disc': rng.choice(signed)})
+    unsigned = ['nanmax', 'maxabs'] + (['abssum', 'nansum'] if frame_len(case) <= 2 else [])
     nparts = len(partitions_of(case))
     if nparts <= 16 and case['amp'] > 0:
         for k in ('anova', 'snr'):
-            atts.append({'cls': k, 'disc': rng.choice(['nanmax', 'maxabs'])})
+            atts.append({'cls': k, 'disc': rng.choice(unsigned)})
     if nparts <= 16:
-        atts.append({'cls': 'nicv', 'disc': rng.choice(['nanmax', 'maxabs', 'abssum'])})
-        atts.append({'cls': 'mia', 'disc': rng.choice(['nanmax', 'maxabs'])})
+        atts.append({'cls': 'nicv', 'disc': rng.choice(unsigned + ['abssum'])})
+        atts.append({'cls': 'mia', 'disc': rng.choice(unsigned)})
         if case.get('NB') and case['amp'] > 0:      # noise-free: zero pooled covariance, every candidate scores 10
             for wi in range(len(case['words']) if tier != 'quick' else 1):
                 atts.append({'cls': 'tdpa', 'disc': 'identity', 'word': wi})
     return atts
 
 
+def frame_idx(case):
+    """Sample indices of the attacked frame, in frame order."""
+    fr = case.get('frame')
+    return list(range(case['S'])) if not fr else list(fr['idx'])
+
+
+def frame_len(case):
+    return len(frame_idx(case))
+
+
+def frame_obj(case):
+    fr = case.get('frame')
+    if not fr:
+        return None
+    if fr['form'] == 'slice':
+        return slice(fr['idx'][0], fr['idx'][-1] + 1)
+    if fr['form'] == 'ndarray':
+        return np.array(fr['idx'])
+    return list(fr['idx'])
+
+
+def framed(case):
+    """The campaign as the attack sees it: number of samples and leaking positions inside the frame."""
+    idx = frame_idx(case)
+    return len(idx), [[idx.index(x) for x in ss if x in idx] for ss in case['leaks']]
+
+
 def mia_edges2(case):
     """Uniform bin edges (in halves) covering gain * leak + noise."""
     top = max(partitions_of(case)) if case['model'][0] != 'hw' else value_bits(case)
-    lo, hi = -case['amp'], case['gain'] * top + case['amp']
+    g, off = case['gain'] * top, case.get('offset', 0)
+    lo, hi = off + min(0, g) - case['amp'], off + max(0, g) + case['amp']
     width = 2 if hi - lo <= 16 else -(-(hi - lo + 1) // 8)
     nb = -(-(hi - lo + 1) // width)
     return [2 * (lo + width * i) - 1 for i in range(nb + 1)]
@@ -496,7 +559,7 @@ def words_obj(case):
 
 
 def make_case(rng, tier, cipher=None, sf=None, keysize=None, model=None, amp=None, batch=None, N=None, fips=False, wform=None,
-              extra=None, mtags=None):
+              extra=None, mtags=None, frame=None, neg=None, offset=None, precision=None, NB=None):
     cipher = cipher or rng.choice(['aes', 'aes', 'des'])
     sf = sf or rng.choice(AES_SF if cipher == 'aes' else DES_SF)
     keysize = (keysize or rng.choice([16, 24, 32])) if cipher == 'aes' else 8
@@ -513,6 +576,10 @@ def make_case(rng, tier, cipher=None, sf=None, keysize=None, model=None, amp=Non
     case['model'] = model
     nwords = 16 if cipher == 'aes' else 8
     k = 2 if tier == 'quick' else rng.choice([2, 3])
+    frame = frame or rng.choice(['full'] * 6 + ['one', 'one', 'two'])
+    if frame == 'one':                               # a one-sample frame shows one word
+        k = 1
+        wform = wform or rng.choice(['int', 'sorted'])
     choose_words(rng, case, nwords, k, wform)
     k = len(case['words'])
     S = rng.randint(max(4, k + 1), 6)
@@ -524,15 +591,31 @@ def make_case(rng, tier, cipher=None, sf=None, keysize=None, model=None, amp=Non
     case['leaks'] = [sorted(x) for x in leaks]
     free = [x for x in range(S) if x not in slots]
     case['const'] = [rng.choice(free)] if free and rng.random() < 0.4 else []
+    case['frame'] = None
+    if frame == 'one':
+        case['frame'] = {'idx': [leaks[0][0]], 'form': rng.choice(['list', 'slice', 'ndarray'])}
+    elif frame == 'two':
+        idx = [leaks[0][0], leaks[1][0]] if k >= 2 else [leaks[0][0], (leaks[0][0] + 1) % S]
+        if rng.random() < 0.5:
+            idx = sorted(idx)
+        case['frame'] = {'idx': idx, 'form': 'slice' if (idx[1] == idx[0] + 1 and rng.random() < 0.5) else rng.choice(['list', 'ndarray'])}
     case['amp'] = amp if amp is not None else rng.choice([0, 1, 1, 2, 2])
     case['gain'] = {'hw': rng.choice([1, 1, 2]), 'monobit': rng.choice([3, 4]), 'value': 1}[model[0]]
+    if neg if neg is not None else rng.random() < 0.35:        # negative polarity: the leak is minus the model
+        case['gain'] = -case['gain']
+    case['offset'] = offset if offset is not None else rng.choice([0, 0, 30000])
     case['N'] = N or (rng.choice([100, 120]) if case['amp'] >= 2 else rng.choice([80, 100, 120]))
     case['batch'] = batch if batch is not None else rng.choice([7, 50, 0])
-    case['precision'] = rng.choice(['float32', 'float32', 'float64'])
+    case['precision'] = precision or rng.choice(['float32', 'float32', 'float64'])
+    if case['offset']:                               # raw ADC codes around a baseline need double precision accumulators: float32 is
+        case['precision'] = 'float64'                # not exact there, float64 is
+    case['tdtype'] = 'int16' if (tier == 'quick' or not case['offset'] or rng.random() < 0.5) else 'uint16'
     case['data_seed'] = rng.getrandbits(48)
     case['NB'] = 0
     if not ark and len(partitions_of(case)) <= 16 and rng.random() < (0.35 if tier == 'quick' else 0.6):
         case['NB'] = rng.choice([150, 200])
+    if NB is not None:
+        case['NB'] = NB
     case['edges2'] = mia_edges2(case)
     case['attacks'] = attacks_for(rng, case, tier)
     choose_metadata(rng, case, extra, mtags)
@@ -567,6 +650,20 @@ def boundary(rng, tier):
     # noise-free: r = 1, NICV = 1 at the true key
     yield make_case(rng, tier, cipher='aes', sf='FirstSubBytes', keysize=16, model=['hw'], amp=0, N=80, batch=0)
     yield make_case(rng, tier, cipher='des', sf='FirstSboxes', model=['value'], amp=0, N=80, batch=7)
+    # degenerate frames x polarity x discriminant; precision x offset (raw ADC codes around a baseline of 30000, float64)
+    c = make_case(rng, tier, cipher='aes', sf='FirstSubBytes', keysize=16, model=['hw'], amp=1, frame='one', neg=True, offset=0, NB=0)
+    c['attacks'] = [{'cls': 'cpa', 'disc': d} for d in ('maxabs', 'opposite_min', 'abssum')] + [a for a in c['attacks'] if a['cls'] != 'cpa']
+    yield c
+    c = make_case(rng, tier, cipher='des', sf='FirstSboxes', model=['monobit', 1], amp=1, frame='one', neg=True, offset=0, NB=0)
+    c['attacks'] = [{'cls': 'dpa', 'disc': d} for d in ('maxabs', 'opposite_min', 'abssum')] + [a for a in c['attacks'] if a['cls'] not in ('dpa', 'mia', 'snr')]
+    yield c
+    c = make_case(rng, tier, cipher='aes', sf='LastSubBytes', keysize=16, model=['hw'], amp=1, frame='one', neg=False, offset=0, NB=0)
+    c['attacks'] = [{'cls': 'cpa', 'disc': d} for d in ('nanmax', 'nansum', 'abssum', 'maxabs')] + [a for a in c['attacks'] if a['cls'] in ('nicv', 'anova')]
+    yield c
+    yield make_case(rng, tier, cipher='aes', sf='FirstSubBytes', keysize=32, model=['hw'], amp=2, N=120, frame='two', neg=True, NB=0)
+    yield make_case(rng, tier, cipher='aes', sf='FirstSubBytes', keysize=16, model=['hw'], amp=1, frame='full', neg=False, offset=30000,
+                    NB=200, wform='int')
+    yield make_case(rng, tier, cipher='des', sf='LastSboxes', model=['hw'], amp=2, N=120, frame='full', offset=30000, NB=150)
     # words forms and metadata names that the random stream may miss in the quick tier
     yield make_case(rng, tier, cipher='aes', sf='FirstSubBytes', keysize=16, model=['hw'], wform='desc', extra=['data'], mtags={'target': None, 'key': None})
     yield make_case(rng, tier, cipher='des', sf='LastSboxes', model=['hw'], wform='desc', extra=['data', 'key', 'other'],
@@ -591,7 +688,7 @@ class CampaignKind(Kind):
     def gen(self, rng, tier):
         for c in boundary(rng, tier):
             yield c
-        for _ in range(6 if tier == 'quick' else 130):
+        for _ in range(2 if tier == 'quick' else 130):
             yield make_case(rng, tier)
 
     # ------------------------------------------------------------------------------------------ driving the real code
@@ -625,8 +722,14 @@ class CampaignKind(Kind):
         A = sim['attack']
         N, words = case['N'], case['words']
         key = np.array(case['key'], dtype='uint8')
-        obs = {'traces': A['traces'], 'state': A['leak']}
-        samples = np.array(A['traces'], dtype='int16')
+        idx = frame_idx(case)
+        S_eff, leaks_eff = framed(case)
+        view = [[r[i] for i in idx] for r in A['traces']]             # the traces as the attack sees them: samples[:, frame]
+        obs = {'traces': view, 'state': A['leak'], 'S': S_eff, 'leaks': leaks_eff}
+        eff = dict(case, S=S_eff)
+        tdtype = case.get('tdtype', 'int16')
+        samples = np.array(A['traces'], dtype=tdtype)
+        frame = frame_obj(case)
         cut = case.get('split', 0)
         pieces = [(0, N)] if not 0 < cut < N else [(0, cut), (cut, N)]      # two run() calls of every attack object on the same key
         parts = partitions_of(case)
@@ -639,7 +742,7 @@ class CampaignKind(Kind):
         calls = [np.asarray(sf.compute_expected_key(**ekkw)).reshape(-1)]          # before any run
         try:
             scared.set_batch_size(case['batch'] if case['batch'] else None)
-            conts = [scared.Container(estraces.read_ths_from_ram(samples=samples[a:b], **{k: v[a:b] for k, v in md.items()}))
+            conts = [scared.Container(estraces.read_ths_from_ram(samples=samples[a:b], **{k: v[a:b] for k, v in md.items()}), frame=frame)
                      for a, b in pieces]
             obs['container_batch_size'] = int(conts[0].batch_size)
             with warnings.catch_warnings():
@@ -650,9 +753,9 @@ class CampaignKind(Kind):
                     if k == 'tdpa':
                         B = sim['build']
                         w = words[att['word']]
-                        bths = estraces.read_ths_from_ram(samples=np.array(B['traces'], dtype='int16'), tgt=B['state'])
+                        bths = estraces.read_ths_from_ram(samples=np.array(B['traces'], dtype=tdtype), tgt=B['state'])
                         rsf = scared.reverse_selection_function(lambda tgt: tgt, words=w)
-                        a = scared.TemplateDPAAttack(container_building=scared.Container(bths), reverse_selection_function=rsf,
+                        a = scared.TemplateDPAAttack(container_building=scared.Container(bths, frame=frame), reverse_selection_function=rsf,
                                                      selection_function=self._sf(case, w), partitions=parts, **kw)
                         a.build()
                     else:
@@ -699,8 +802,10 @@ class CampaignKind(Kind):
                     cand[wi].add(int(am[j]))
                 entry['_scores'] = sc2
             if att['cls'] == 'tdpa':
-                entry['T'] = _dyadic(np.asarray(a.templates), 18)
-                entry['P'] = _dyadic(np.asarray(a.pooled_covariance_inv), 20)
+                B = sim['build']
+                Tm, Pm = profile_of([[r[i] for i in idx] for r in B['traces']], B['leak'][att['word']], parts)
+                entry['T'] = _dyadic(Tm, None, 12)
+                entry['P'] = _dyadic(Pm, 20)
             per.append(entry)
         rng = random.Random(case['data_seed'] ^ 0x5EED)
         obs['words'] = []
@@ -730,7 +835,7 @@ class CampaignKind(Kind):
                     o['argmax'] = entry['argmax'][j]
                 if 'T' in entry:
                     o['T'], o['P'] = entry['T'], entry['P']
-                ms = mirror_scores(case, att, A['traces'], W['hyp'], lntab, entry.get('T'), entry.get('P'))
+                ms = mirror_scores(eff, att, view, W['hyp'], lntab, entry.get('T'), entry.get('P'))
                 e = obs['expected'][wi]
                 pos = W['guesses'].index(e) if e in W['guesses'] else None
                 thr = separated(ms, pos)
@@ -745,22 +850,22 @@ class CampaignKind(Kind):
     def coq(self, case, obs):
         if 'raised' in obs or not all(a['shape_ok'] for a in obs['attacks']):
             # nothing to evaluate: the oracle reports the failure
-            return ('{| cc_S := 1%nat; cc_gain := 1%Z; cc_amp := 0%Z; cc_traces := [[0%Z]]; cc_words := []; cc_parts := []; cc_edges := []; '
+            return ('{| cc_S := 1%nat; cc_offset := 0%Z; cc_gain := 1%Z; cc_amp := 0%Z; cc_traces := [[0%Z]]; cc_words := []; cc_parts := []; cc_edges := []; '
                     'cc_ln := []; cc_attacks := [] |}')
         words = []
         for wi, W in enumerate(obs['words']):
             words.append('{| wo_expected := %s; wo_guesses := %s; wo_hyp := %s; wo_state := %s; wo_leak := %s |}' % (
                 C.coq_z(obs['expected'][wi]), C.coq_list(W['guesses'], C.coq_z), C.coq_list2(W['hyp'], C.coq_z),
-                C.coq_list(obs['state'][wi], C.coq_z), C.coq_list(case['leaks'][wi], C.coq_nat)))
+                C.coq_list(obs['state'][wi], C.coq_z), C.coq_list(obs['leaks'][wi], C.coq_nat)))
         atts = []
         for a in obs['attacks']:
             atts.append('{| ao_kind := %s; ao_disc := %s; ao_word := %s; ao_T := %s; ao_P := %s; ao_scores := %s; ao_argmax := %s; ao_sep := %s |}' % (
                 KIND_COQ[a['cls']], DISC_COQ.get(a['disc'], 'Models.DNanmax'), C.coq_nat(a['word']),
                 C.coq_list2(a.get('T', []), core.float_to_coq), C.coq_list2(a.get('P', []), core.float_to_coq),
                 C.coq_list(a['scores'], core.float_to_coq), C.coq_z(a['argmax']), C.coq_bool(a['sep'])))
-        return ('{| cc_S := %s; cc_gain := %s; cc_amp := %s; cc_traces := %s; cc_words := %s; cc_parts := %s; cc_edges := %s; cc_ln := %s; '
+        return ('{| cc_S := %s; cc_offset := %s; cc_gain := %s; cc_amp := %s; cc_traces := %s; cc_words := %s; cc_parts := %s; cc_edges := %s; cc_ln := %s; '
                 'cc_attacks := %s |}' % (
-                    C.coq_nat(case['S']), C.coq_z(case['gain']), C.coq_z(case['amp']), C.coq_list2(obs['traces'], C.coq_z),
+                    C.coq_nat(obs['S']), C.coq_z(case.get('offset', 0)), C.coq_z(case['gain']), C.coq_z(case['amp']), C.coq_list2(obs['traces'], C.coq_z),
                     C.coq_list(words), C.coq_list(partitions_of(case), C.coq_z), C.coq_list(case['edges2'], C.coq_z),
                     C.coq_list(obs['ln'], core.float_to_coq), C.coq_list(atts)))
 
@@ -800,6 +905,8 @@ class CampaignKind(Kind):
              'batch': case['batch'] or 'default', 'N': case['N'], 'precision': case['precision'], 'words': len(case['words']),
              'constant_sample_in_frame': bool(case.get('const')) or case['amp'] == 0,
              'words_arg': f"{case.get('words_kind')}/{case.get('words_form')}", 'extra_metadata': '+'.join(sorted(case.get('extra', []))) or 'none',
+             'frame': ('full' if not case.get('frame') else f"{len(case['frame']['idx'])}/{case['frame']['form']}"),
+             'polarity': 'negative' if case['gain'] < 0 else 'positive', 'offset': case.get('offset', 0), 'trace_dtype': case.get('tdtype', 'int16'),
              'custom_tags': '+'.join(k for k, v in sorted(case.get('mtags', {}).items()) if v) or 'none'}
         if 'raised' not in obs:
             n = len(obs['attacks'])
